@@ -75,6 +75,25 @@ CLAIMED = {
         "panicking iterator / Display impl in collect / to_lean_string leaves an empty slot and a heap in which every live buffer is named by a slot (so C03_no_leak applies); "
         "extend / write! panics are covered by C01_step's refinement clause; C18_every_step_stays_usable."),
         note=TB, technique="Coq: callback modelled by its answer to the k-th call, for every k; catch_unwind + leak monitors", design='§7 C18'),
+    'C15': dict(text=T("Theorems: C15_bool, C15_char, C15_string, C15_lean_string (the shallow clone), C15_display — a Display impl that emits pieces p1..pk and returns Ok gives "
+        "exactly p1++..++pk, one that returns Err after any prefix gives Err(Fmt) and no string, a panic gives nothing (for every piece list and every position). For f32/f64 the "
+        "model covers 'from_str of the text ryu produced' (ryu is an external crate: an oracle); the round-trip clause is VALIDATED, not proved: quick = 1M strided f32 patterns + 1M "
+        "stratified/random f64 + NaN/inf/signed-zero/subnormal specials, thorough = all 2^32 f32 patterns + 20M f64."),
+        note=TB + " ryu's shortest-round-trip algorithm is not code of this repository and is not proved (labelled partial for the float clause).",
+        technique="Coq: refinement of the to_lean_string arms to Spec; exhaustive/strided float round-trip sweep on the real crate", design='§7 C15'),
+    'C17': dict(text=T("Theorems: C17_as_bytes_is_text — in every reachable world as_bytes/as_str returns exactly the abstract text of the handle, whatever its storage kind, capacity, sharing or "
+        "stale bytes, and changes nothing; C17_repr_independent — two handles with the same text are indistinguishable through it. Eq/Ord/Hash/Display/Debug/Borrow/AsRef/Deref are "
+        "one-line delegations to as_str (lib.rs:935-1069), so this is thin by nature; the tie carries the weight: for every ordered pair of live handles in the explored histories ==, cmp, "
+        "hash (DefaultHasher), Display, Debug and comparisons with str/&str/String/Cow in both orders are compared with the same operations on the texts."),
+        note=TB + " The trait impls themselves are not modelled (they are delegations); the monitor eq_mismatch checks them on the real crate.",
+        technique="Coq: as_bytes reads the abstract text (representation independence); pairwise comparison monitors on the real crate", design='§7 C17'),
+    'C20': dict(text=T("Theorems: C20_last_byte_table — the LastByte enum regenerated from last_byte.rs declares exactly 0x00..=0xD1 (LengthNN = 0xC0|NN) and nothing above, so 0xD2..=0xFF are free "
+        "for Option's niche; C20_tag_range / C20_reachable — for every handle of every reachable world the tag byte is <= 0xD1, the tag tells the three storage states apart "
+        "correctly and the branch-free length decode reads the handle's length. Checked by building, not proved: the size_of/align_of equalities are the crate's own const "
+        "assertions (a build in each configuration checks them) and rustc's choice of niche is observed (Some(s).is_some() monitor). Configurations: the explorer's traces under "
+        "{default, no-default-features, all-features} x {dev, release} must be byte-identical to default-release and monitor-silent (quick: 3 extra configurations, thorough: all 5)."),
+        note=TB + " rustc's layout of Option<LeanString> is observed, not proved.",
+        technique="Coq: tag arithmetic over the regenerated LastByte table; build matrix with identical-trace comparison", design='§7 C20'),
     'C14': dict(
         text=("Theorem (Coq, all inputs): for each of the 10 integer types of at most 64 bits (and hence their NonZero forms) and EVERY value z of "
               "the type, the model of the digit-count table + unrolled LUT writer returns exactly the decimal text of z, the table entry equals "
